@@ -12,6 +12,11 @@
 #include <tuple>
 #include <unistd.h>
 
+// Accessor befriended by DynamicPGMIndex under PGM_INDEX_VERIF: used only to steer histories (is the deepest counted level empty?).
+struct pgm::verif::Access {
+    template<typename D> static bool deepest_level_empty(const D &d) { return d.used_levels > d.min_level && d.level(d.used_levels - 1).empty(); }
+};
+
 namespace vf {
 
 static inline uint64_t mix(uint64_t h, uint64_t x) {
@@ -187,8 +192,13 @@ struct DynSubj {
         unsigned base = bases[t.below(4)], bl = (unsigned) t.below(3), il = (unsigned) t.below(5);
         size_t n_ops = t.below(size_hint < 30 ? 40 : 2500);
         uint64_t seed = t.bits(64);
+        // tail of the history: nothing / every key of the universe erased (the deepest level is drained by the cancelling merge and
+        // stays counted) / the same followed by a few fresh inserts that stay in the upper levels
+        unsigned tail = (unsigned) t.below(4);
+        size_t tail_inserts = tail == 3 ? t.below(40) : 0;
         desc = std::string("DynamicPGMIndex<") + type_name<K>() + "," + (std::is_same_v<V, std::string> ? "std::string" : "uint32_t") + "> base=" + std::to_string(base) +
-               " buffer_level=" + std::to_string(bl) + " index_level=" + std::to_string(il) + " universe=" + std::to_string(uni.size()) + " history=" + std::to_string(n_ops) + "\n";
+               " buffer_level=" + std::to_string(bl) + " index_level=" + std::to_string(il) + " universe=" + std::to_string(uni.size()) + " history=" + std::to_string(n_ops) +
+               (tail >= 2 ? " then every key erased, then " + std::to_string(tail_inserts) + " inserts" : std::string()) + "\n";
         if (!execute) return true;
         SplitMix pr(seed);
         obj.reset(new Index((uint8_t) base, (uint8_t) bl, (uint8_t) il));
@@ -196,6 +206,12 @@ struct DynSubj {
             K k = uni[pr.below(uni.size())];
             if (pr.below(4) == 0) obj->erase(k);
             else obj->insert_or_assign(k, val(pr.next()));
+        }
+        if (tail >= 2) {
+            for (const K &k: uni) obj->erase(k);
+            // keep pushing tombstones until the cancelling merge has reached the deepest level (bounded: histories are short)
+            for (size_t i = 0; i < 40000 && !pgm::verif::Access::deepest_level_empty(*obj); ++i) obj->erase(uni[i % uni.size()]);
+            for (size_t i = 0; i < tail_inserts; ++i) obj->insert_or_assign(uni[pr.below(uni.size())], val(pr.next()));
         }
         return true;
     }
